@@ -326,6 +326,8 @@ pub fn build(n: &Node, pool: &Pool) -> (Error, M) {
 fn name() -> impl Strategy<Value = String> {
     prop_oneof![
         8 => "[a-z_]{1,6}",
+        // (a location is any Display value: the empty string is one, and stays a segment of the path)
+        1 => Just(String::new()),
         1 => "[a-z]{1,3}/[a-z]{1,3}",
         1 => "[a-z]{1,3} at [a-z]{1,3}",
         1 => "[A-Za-z0-9:\\[\\]]{1,8}",
@@ -384,8 +386,11 @@ pub fn node() -> impl Strategy<Value = Node> {
 /// first alternative everywhere, so decoding always ends).
 pub fn node_from(d: &mut vmodel::dec::D, depth: usize) -> Node {
     fn nm(d: &mut vmodel::dec::D) -> String {
-        const A: &[&str] = &["a", "b", "c", "field", "m", "r1", "r2", "x_y", "k/l", "p at q", "A:[0]", "_"];
+        const A: &[&str] = &["a", "b", "c", "field", "m", "r1", "r2", "x_y", "k/l", "p at q", "A:[0]", "_", ""];
         let base = d.pick(A).to_string();
+        if base.is_empty() {
+            return base;
+        }
         if d.ratio(1, 3) {
             format!("{}{}", base, d.below(10))
         } else {
